@@ -358,8 +358,18 @@ class XPathContext:
         prod = [None] * dimension
         max_index = dimension - 1
 
+        outer = {name: self.variables[name] for name in varnames if name in self.variables}
         k = 0
         while True:
+            # a range expression sees the variables in scope before the clause and those of
+            # the levels before it, also when a later variable of the clause has the same name
+            for name in varnames[k:]:
+                if name in outer:
+                    self.variables[name] = outer[name]
+                else:
+                    self.variables.pop(name, None)
+            for j in range(min(k, len(varnames))):
+                self.variables[varnames[j]] = prod[j]
             for value in iterators[k]:
                 try:
                     self.variables[varnames[k]] = value
@@ -374,6 +384,8 @@ class XPathContext:
                 break
             else:
                 if not k:
+                    # leave the last bindings in the dictionary, as before
+                    self.variables.update((n, v) for n, v in zip(varnames, prod) if v is not None)
                     return
                 iterators[k] = selectors[k](self)
                 k -= 1
